@@ -380,6 +380,78 @@ class _Checker:
         finally:
             self.prefix, self.rep, self.note = "", None, ""
 
+    # ---- mode H on BoundaryCondition objects (held object + clone) ---------------------------------------
+    def bc_histories(self, hists):
+        """SetBox / Query / Clone on held BoundaryCondition objects; the expectation of a query is the
+        mode-L expectation (from TLC) for the last box set on that object with that object's class"""
+        ctx = self.ctx
+        mat = lambda cols: " ".join(_fmt(cols[j][i]) for i in range(3) for j in range(3))
+        items = []
+        for i, hr in enumerate(hists):
+            cmds = ["bcnew %s %s %s" % (hr["cls"], hr["how"], mat(hr["init"]))]
+            for op in hr["h"]:
+                if op["op"] == "set":
+                    cmds.append("bcset %s %s" % (op["obj"], mat(op["box"])))
+                elif op["op"] == "clone":
+                    cmds.append("bcclone")
+                else:
+                    op["_probes"] = sorted(op["probes"], key=lambda p: p["r"])
+                    cmds.append("bcquery %s %d %s" % (op["obj"], len(op["_probes"]), " ".join(
+                        " ".join(_fmt(v) for v in p["pairs"][0]["i"] + p["pairs"][0]["j"]) for p in op["_probes"])))
+            items.append((i, cmds))
+        results, crashes = vlib.run_items(self.exe, items)
+        self.prefix = "bc:"
+        pending = []
+        st = self.stats
+        try:
+            for i, hr in enumerate(hists):
+                ctx.traces += 1
+                st["bc_histories"] = st.get("bc_histories", 0) + 1
+                self.rep = {"bc_history": {k: v for k, v in hr.items()}}
+                if i in crashes:
+                    self._viol("crash", "driver died: " + crashes[i], None)
+                    continue
+                out = results[i]
+                # vacuity: query -> setBox(other box) -> query on the same object
+                state = {}      # obj -> [queried, last box, changed after a query]
+                box = {"o": hr["init"]}
+                for n, op in enumerate(hr["h"]):
+                    lines = out[1 + n]
+                    if any(ln.startswith("exc") for ln in lines):
+                        self._viol("exception", "%s during %s" % (lines, op["op"]), None)
+                        break
+                    if op["op"] == "clone":
+                        box["c"] = box["o"]
+                        state.pop("c", None)
+                        st["bc_clone"] = st.get("bc_clone", 0) + 1
+                        continue
+                    x = op["obj"]
+                    if op["op"] == "set":
+                        if state.get(x, {}).get("q") and op["box"] != box[x]:
+                            state[x]["changed"] = True
+                        box[x] = op["box"]
+                        continue
+                    if state.get(x, {}).get("changed"):
+                        st["bc_requery_" + hr["cls"]] = st.get("bc_requery_" + hr["cls"], 0) + 1
+                    if x == "c" and box["c"] != box["o"]:
+                        st["bc_clone_diverged"] = st.get("bc_clone_diverged", 0) + 1
+                    state[x] = {"q": True}
+                    self.note = "%s object '%s' (%s) after %s: " % (
+                        hr["cls"], x, "constructed directly" if hr["how"] == "new" else "Clone() of a Topology's boundary",
+                        [hr["init"]] + [(o_["op"], o_.get("obj", ""), o_.get("box", "")) for o_ in hr["h"][:n]])
+                    shortl = [ln for ln in lines if ln.startswith("short ")]
+                    self._box_checks(hr["cls"], op["typ"], op["box"], op, [lines, shortl])
+                    fl = [ln for ln in lines if ln.startswith("f ")]
+                    if len(fl) != len(op["_probes"]):
+                        self._viol("query:incomplete", "%d connection vectors for %d probes" % (len(fl), len(op["_probes"])), None)
+                        continue
+                    for p, ln in zip(op["_probes"], fl):
+                        vec = dict(p, box=op["box"], req=hr["cls"], typ=op["typ"])
+                        self._vector(vec, [_parse_pair([ln])], pending)
+            self._resolve(pending)
+        finally:
+            self.prefix, self.rep, self.note = "", None, ""
+
     # ---- general boxes: volume only -----------------------------------------------------------
     def volumes(self, vecs):
         ctx = self.ctx
@@ -509,6 +581,8 @@ def run(ctx):
             chk.vectors([obj["vector"]])
         elif "history" in obj:
             chk.histories([obj["history"]])
+        elif "bc_history" in obj:
+            chk.bc_histories([obj["bc_history"]])
         elif "volume_vector" in obj:
             chk.volumes([obj["volume_vector"]])
         else:
@@ -564,6 +638,21 @@ def run(ctx):
         ctx.add_tlc("MCPbcHistSim(simulate)", res)
         chk.histories(res.records)
     del hists, res
+
+    # ---- 1c. mode H on BoundaryCondition objects ---------------------------------------------------------
+    cfg = "MCPbcBcHistQuick.cfg" if quick else "MCPbcBcHistThorough.cfg"
+    res = vlib.tlc("pbc", "MCPbcBcHist", cfg=cfg, timeout=1200)
+    vlib.tlc_must_hold(res, "PbcBcHist (a query answers for the object's own last box; probes certified)")
+    ctx.add_tlc(cfg[:-4], res)
+    if not res.records:
+        raise vlib.InfraError("no BoundaryCondition histories exported")
+    res.out = ""
+    chk.bc_histories(res.records)
+    ctx.sample({"bc_history": res.records[len(res.records) // 2]})
+    del res
+    if not (chk.stats.get("bc_requery_ortho") and chk.stats.get("bc_requery_tric") and chk.stats.get("bc_requery_open")
+            and chk.stats.get("bc_clone_diverged")):
+        raise vlib.InfraError("vacuous BoundaryCondition history set: %s" % chk.stats)
 
     # ---- 2. volume of general boxes ---------------------------------------------------------------
     res = vlib.tlc("pbc", "MCPbcVolume", cfg="MCPbcVolume.cfg", timeout=600)
